@@ -45,6 +45,13 @@ func Pipeline(f func(int) <-chan int, g func(int) <-chan int) func(int) <-chan i
 	return derivePipelineP(f, g)
 }
 func DupR(c <-chan int) (<-chan int, <-chan int)       { return deriveDupR(c) }
+
+// pipeline whose stages return BIDIRECTIONAL channels (F95): built on the join of <-chan (chan int) and an fmap
+func FmapPb(f func(int) chan int, in <-chan int) <-chan (chan int) { return deriveFmapPb(f, in) }
+func JoinPb(in <-chan (chan int)) <-chan int                      { return deriveJoinPb(in) }
+func PipelineB(f func(int) chan int, g func(int) chan int) func(int) <-chan int {
+	return derivePipelineB(f, g)
+}
 func Do2(f0, f1 func() (int, error)) (int, int, error) { return deriveDo2(f0, f1) }
 func Do3(f0, f1, f2 func() (int, error)) (int, int, int, error) {
 	return deriveDo3(f0, f1, f2)
@@ -57,6 +64,7 @@ func Do4(f0, f1, f2, f3 func() (int, error)) (int, int, int, int, error) {
 const pkgB = `package concpkgb
 
 func JoinCCb(in chan (<-chan int)) <-chan int  { return deriveJoinCCb(in) }
+func JoinCCbb(in chan (chan int)) <-chan int   { return deriveJoinCCbb(in) } // bidirectional inner channels (F94)
 func JoinSCb(in []chan int) <-chan int         { return deriveJoinSCb(in) }
 func JoinV3(c0, c1, c2 chan int) <-chan int    { return deriveJoinV3(c0, c1, c2) }
 func JoinV6(c0, c1, c2, c3, c4, c5 chan int) <-chan int {
@@ -74,11 +82,30 @@ func Do3m(f0 func() (int, error), f1 func() (int64, error), f2 func() (string, e
 }
 `
 
+// streams whose ELEMENT TYPE IS AN INTERFACE (items may be the nil interface value or a typed-nil pointer)
+const pkgI = `package concpkgi
+
+func FmapA(f func(interface{}) interface{}, in <-chan interface{}) <-chan interface{} {
+	return deriveFmapA(f, in)
+}
+func DupA(c <-chan interface{}) (<-chan interface{}, <-chan interface{}) { return deriveDupA(c) }
+func JoinCCe(in <-chan (<-chan error)) <-chan error                     { return deriveJoinCCe(in) }
+func JoinSCe(in []<-chan error) <-chan error                            { return deriveJoinSCe(in) }
+func JoinV2e(c0, c1 <-chan error) <-chan error                          { return deriveJoinV2e(c0, c1) }
+func FmapPe(f func(error) <-chan error, in <-chan error) <-chan (<-chan error) {
+	return deriveFmapPe(f, in)
+}
+func PipelineE(f func(int) <-chan error, g func(error) <-chan error) func(int) <-chan error {
+	return derivePipelineE(f, g)
+}
+`
+
 const vsMain = `package main
 
 import (
 	a "concwork/vs/concpkg"
 	b "concwork/vs/concpkgb"
+	i "concwork/vs/concpkgi"
 	"verifharness/conc"
 	"verifharness/vsched"
 )
@@ -88,15 +115,19 @@ func main() {
 		Fmap:     map[string]func(func(int) int, conc.VC) conc.VC{"FmapChan": a.FmapChan},
 		FmapCh:   a.FmapCh,
 		Dup:      map[string]func(conc.VC) (conc.VC, conc.VC){"DupR": a.DupR, "DupB": b.DupB},
-		JoinCC:   map[string]func(*vsched.Chan[conc.VC]) conc.VC{"JoinCC": a.JoinCC, "JoinCCb": b.JoinCCb},
+		JoinCC:   map[string]func(*vsched.Chan[conc.VC]) conc.VC{"JoinCC": a.JoinCC, "JoinCCb": b.JoinCCb, "JoinCCbb": b.JoinCCbb},
 		JoinSC:   map[string]func([]conc.VC) conc.VC{"JoinSC": a.JoinSC, "JoinSCb": b.JoinSCb},
 		JoinV: map[string]func([]conc.VC) conc.VC{
 			"JoinV2": func(c []conc.VC) conc.VC { return a.JoinV2(c[0], c[1]) },
 			"JoinV3": func(c []conc.VC) conc.VC { return b.JoinV3(c[0], c[1], c[2]) },
 			"JoinV5": func(c []conc.VC) conc.VC { return a.JoinV5(c[0], c[1], c[2], c[3], c[4]) },
 			"JoinV6": func(c []conc.VC) conc.VC { return b.JoinV6(c[0], c[1], c[2], c[3], c[4], c[5]) }},
-		Pipeline: a.Pipeline,
-		Do2:      map[string]func(f0, f1 func() (int, error)) (int, int, error){"Do2": a.Do2, "Do2b": b.Do2b},
+		Pipeline:  a.Pipeline,
+		PipelineB: a.PipelineB,
+		A:         conc.VOps[any]{Fmap: i.FmapA, Dup: i.DupA},
+		E: conc.VOps[error]{JoinCC: i.JoinCCe, JoinSC: i.JoinSCe, Pipeline: i.PipelineE,
+			JoinV: func(c []*vsched.Chan[error]) *vsched.Chan[error] { return i.JoinV2e(c[0], c[1]) }},
+		Do2: map[string]func(f0, f1 func() (int, error)) (int, int, error){"Do2": a.Do2, "Do2b": b.Do2b},
 		Do3: map[string]func(f0, f1, f2 func() (int, error)) (int, int, int, error){"Do3": a.Do3, "Do3b": b.Do3b,
 			"Do3m": func(f0, f1, f2 func() (int, error)) (int, int, int, error) { return conc.Mixed3(b.Do3m, f0, f1, f2) }},
 		Do4: a.Do4,
@@ -109,6 +140,7 @@ const raceMain = `package main
 import (
 	a "concwork/concpkg"
 	b "concwork/concpkgb"
+	i "concwork/concpkgi"
 	"verifharness/conc"
 )
 
@@ -136,8 +168,24 @@ func main() {
 			"JoinV3": func(c []chan int) <-chan int { return b.JoinV3(c[0], c[1], c[2]) },
 			"JoinV5": func(c []chan int) <-chan int { return a.JoinV5(c[0], c[1], c[2], c[3], c[4]) },
 			"JoinV6": func(c []chan int) <-chan int { return b.JoinV6(c[0], c[1], c[2], c[3], c[4], c[5]) }},
-		Pipeline: a.Pipeline,
-		Do2:      map[string]func(f0, f1 func() (int, error)) (int, int, error){"Do2": a.Do2, "Do2b": b.Do2b},
+		Pipeline:  a.Pipeline,
+		PipelineB: a.PipelineB,
+		JoinCCbb:  b.JoinCCbb,
+		A: conc.ROps[any]{Fmap: i.FmapA, Dup: func(c chan any) (<-chan any, <-chan any) { return i.DupA(c) }},
+		E: conc.ROps[error]{Pipeline: i.PipelineE,
+			JoinCC: func(c chan (<-chan error)) <-chan error { return i.JoinCCe(c) },
+			JoinSC: func(in []chan error) <-chan error {
+				if in == nil {
+					return i.JoinSCe(nil)
+				}
+				r := make([]<-chan error, len(in))
+				for k, c := range in {
+					r[k] = c
+				}
+				return i.JoinSCe(r)
+			},
+			JoinV: func(c []chan error) <-chan error { return i.JoinV2e(c[0], c[1]) }},
+		Do2: map[string]func(f0, f1 func() (int, error)) (int, int, error){"Do2": a.Do2, "Do2b": b.Do2b},
 		Do3: map[string]func(f0, f1, f2 func() (int, error)) (int, int, int, error){"Do3": a.Do3, "Do3b": b.Do3b,
 			"Do3m": func(f0, f1, f2 func() (int, error)) (int, int, int, error) { return conc.Mixed3(b.Do3m, f0, f1, f2) }},
 		Do4: a.Do4,
@@ -219,6 +267,7 @@ func main() {
 	work := flag.String("work", "", "work directory (becomes a Go module)")
 	harness := flag.String("harness", "", "path of the verifharness module")
 	lean := flag.String("lean", "", "path of Generated/ConcFacts.lean to (re)write")
+	repoHash := flag.String("repohash", "", "hash of the goderive source tree the binary was built from (recorded in the facts file)")
 	flag.Parse()
 	if *goderive == "" || *work == "" || *harness == "" {
 		flag.Usage()
@@ -228,8 +277,9 @@ func main() {
 	write(filepath.Join(*work, "go.mod"), fmt.Sprintf(goMod, *harness))
 	write(filepath.Join(*work, "concpkg", "conc.go"), pkgA)
 	write(filepath.Join(*work, "concpkgb", "conc.go"), pkgB)
+	write(filepath.Join(*work, "concpkgi", "conc.go"), pkgI)
 
-	cmd := exec.Command(*goderive, "./concpkg", "./concpkgb")
+	cmd := exec.Command(*goderive, "./concpkg", "./concpkgb", "./concpkgi")
 	cmd.Dir = *work
 	if out, err := cmd.CombinedOutput(); err != nil {
 		fmt.Fprintf(os.Stderr, "genconc: goderive failed on the fixed package: %v\n%s\n", err, out)
@@ -238,7 +288,7 @@ func main() {
 
 	all := map[string]string{}
 	var pkgs []*rewrite.Pkg
-	for _, pk := range []string{"concpkg", "concpkgb"} {
+	for _, pk := range []string{"concpkg", "concpkgb", "concpkgi"} {
 		p, err := rewrite.Load(filepath.Join(*work, pk))
 		if err != nil {
 			fmt.Fprintf(os.Stderr, "genconc: emitted code does not type-check: %v\n", err)
@@ -260,6 +310,7 @@ func main() {
 	ln.WriteString("/-\nGENERATED by harness/cmd/genconc on every run of ./check C19 / C20 (tie T4): the channel-operation\n" +
 		"skeletons of the functions the real goderive emits NOW for the fixed package using every concurrent\n" +
 		"combinator form.  Do not edit; K/Skeleton.lean compares it with the skeletons the LTSs were written for.\n-/\n" +
+		"-- facts-of-repo-tree: " + *repoHash + "\n" +
 		"namespace Goderive.Generated\n\ndef skeletons : List (String × String) := [\n")
 	names := rewrite.SortedNames(all)
 	for i, n := range names {
@@ -294,7 +345,7 @@ func main() {
 	write(filepath.Join(*work, "cmd", "vsrun", "main.go"), vsMain)
 	write(filepath.Join(*work, "cmd", "racerun", "main.go"), raceMain)
 	// last: the rewriting onto vsched; when it fails everything else (facts, real-runtime program, probe) is in place
-	for i, pk := range []string{"concpkg", "concpkgb"} {
+	for i, pk := range []string{"concpkg", "concpkgb", "concpkgi"} {
 		if err := pkgs[i].RewriteTo(filepath.Join(*work, "vs", pk)); err != nil {
 			fmt.Fprintf(os.Stderr, "genconc: rewriting onto vsched: %v\n", err)
 			os.Exit(5)
